@@ -9,6 +9,10 @@ mod c02;
 mod c03;
 mod c04;
 mod c05;
+mod c07;
+mod c08;
+mod c09;
+mod tree;
 mod c16;
 
 use common::*;
@@ -61,6 +65,9 @@ fn main() {
             "C03" => c03::replay(case, &mut rep),
             "C04" => c04::replay(case, &mut rep),
             "C05" => c05::replay(case, &mut rep),
+            "C07" => c07::replay(case, &mut rep),
+            "C08" => c08::replay(case, &mut rep),
+            "C09" => c09::replay(case, &mut rep),
             "C16" => c16::replay(case, &mut rep),
             _ => {
                 eprintln!("no replay for {id}");
@@ -74,6 +81,9 @@ fn main() {
             "C03" => c03::run(tier, &mut rep),
             "C04" => c04::run(tier, &mut rep),
             "C05" => c05::run(tier, &mut rep),
+            "C07" => c07::run(tier, &mut rep),
+            "C08" => c08::run(tier, &mut rep),
+            "C09" => c09::run(tier, &mut rep),
             "C16" => c16::run(tier, &mut rep),
             _ => {
                 eprintln!("unknown property {id}");
